@@ -15,13 +15,16 @@ def wrapOf (data : Bytes) : Bytes := data.drop 97
 def wrappedAddr (seg d : Nat) (data : Bytes) : Bytes :=
   bmtHash H seg d ((wrapOf data).take 8) ((wrapOf data).drop 8)
 
+/-- the recovery byte (last signature byte) is one of the canonical 27..30 (at most 30) -/
+def recIdOk (data : Bytes) : Prop := ((sigOf data).getD 64 0).toNat ≤ 30
+
 /-- what is signed: `keccak(id ‖ wrapped address)` -/
 def digestOf (seg d : Nat) (data : Bytes) : Bytes := H (idOf data ++ wrappedAddr H seg d data)
 
 theorem fromChunk_some_iff (seg d : Nat) (hs : 0 < seg) (stale : Bytes) (hb : stale.length = maxSize seg d)
     (data : Bytes) (s : Soc) :
     fromChunk S H seg d stale data = some s ↔
-      105 ≤ data.length ∧ data.length ≤ 97 + (maxSize seg d + 8) ∧
+      105 ≤ data.length ∧ data.length ≤ 97 + (maxSize seg d + 8) ∧ recIdOk data ∧
       ∃ pk, S.recover (sigOf data) (digestOf H seg d data) = some pk ∧ (S.ethAddr pk).length = 20 ∧
         s = { id := idOf data, owner := S.ethAddr pk, sig := sigOf data,
               chunk := { addr := wrappedAddr H seg d data, data := wrapOf data } } := by
@@ -41,45 +44,55 @@ theorem fromChunk_some_iff (seg d : Nat) (hs : 0 < seg) (stale : Bytes) (hb : st
       rw [hashWith_eq H seg d hs stale hb _ _ (by rw [List.length_take]; omega)
         (by rw [List.length_drop]; omega)]
       rw [List.take_append_drop]
-      show (match S.recover (sigOf data) (digestOf H seg d data) with
+      have hsl : (sigOf data).length = 65 := by
+        unfold sigOf; rw [List.length_take, List.length_drop]; omega
+      show (match recoverAddress S (sigOf data) (digestOf H seg d data) with
         | none => none
-        | some pk => if (S.ethAddr pk).length ≠ 20 then none else
-            some { id := idOf data, owner := S.ethAddr pk, sig := sigOf data,
+        | some owner => if owner.length ≠ 20 then none else
+            some { id := idOf data, owner := owner, sig := sigOf data,
                    chunk := { addr := wrappedAddr H seg d data, data := wrapOf data } }) = some s ↔ _
-      cases hr : S.recover (sigOf data) (digestOf H seg d data) with
-      | none => simp
-      | some pk =>
-        by_cases h4 : (S.ethAddr pk).length = 20
-        · simp only [h4, ne_eq, not_true_eq_false, if_false, Option.some.injEq]
-          constructor
-          · intro h; exact ⟨by omega, by omega, pk, rfl, h4, h.symm⟩
-          · rintro ⟨_, _, pk', hpk, _, rfl⟩
-            cases hpk; rfl
-        · simp only [ne_eq, h4, not_false_eq_true, if_true]
-          constructor
-          · intro h; cases h
-          · rintro ⟨_, _, pk', hpk, h4', _⟩
-            cases hpk; exact absurd h4' h4
+      unfold recoverAddress recIdOk
+      simp only [sigSize, hsl, true_and, Nat.add_one_sub_one]
+      by_cases hv : ((sigOf data).getD 64 0).toNat > 30
+      · simp only [hv, if_true]
+        constructor
+        · intro h; cases h
+        · rintro ⟨_, _, hle, _⟩; omega
+      · simp only [hv, if_false]
+        cases hr : S.recover (sigOf data) (digestOf H seg d data) with
+        | none => simp
+        | some pk =>
+          by_cases h4 : (S.ethAddr pk).length = 20
+          · simp only [h4, ne_eq, not_true_eq_false, if_false, Option.some.injEq]
+            constructor
+            · intro h; exact ⟨by omega, by omega, by omega, pk, rfl, h4, h.symm⟩
+            · rintro ⟨_, _, _, pk', hpk, _, rfl⟩
+              cases hpk; rfl
+          · simp only [ne_eq, h4, not_false_eq_true, if_true]
+            constructor
+            · intro h; cases h
+            · rintro ⟨_, _, _, pk', hpk, h4', _⟩
+              cases hpk; exact absurd h4' h4
 
 /-- `soc.Valid` in terms of the specification -/
 theorem valid_iff (seg d : Nat) (hs : 0 < seg) (stale : Bytes) (hb : stale.length = maxSize seg d) (c : Chunk) :
     valid S H seg d stale c = true ↔
-      105 ≤ c.data.length ∧ c.data.length ≤ 97 + (maxSize seg d + 8) ∧
+      105 ≤ c.data.length ∧ c.data.length ≤ 97 + (maxSize seg d + 8) ∧ recIdOk c.data ∧
       ∃ pk, S.recover (sigOf c.data) (digestOf H seg d c.data) = some pk ∧ (S.ethAddr pk).length = 20 ∧
         c.addr = H (idOf c.data ++ S.ethAddr pk) := by
   unfold valid
   cases hf : fromChunk S H seg d stale c.data with
   | none =>
     simp only [Bool.false_eq_true, false_iff]
-    rintro ⟨h1, h2, pk, hpk, h4, _⟩
-    have := (fromChunk_some_iff S H seg d hs stale hb c.data _).mpr ⟨h1, h2, pk, hpk, h4, rfl⟩
+    rintro ⟨h1, h2, h3, pk, hpk, h4, _⟩
+    have := (fromChunk_some_iff S H seg d hs stale hb c.data _).mpr ⟨h1, h2, h3, pk, hpk, h4, rfl⟩
     rw [hf] at this; cases this
   | some s =>
-    obtain ⟨h1, h2, pk, hpk, h4, rfl⟩ := (fromChunk_some_iff S H seg d hs stale hb c.data s).mp hf
+    obtain ⟨h1, h2, h3, pk, hpk, h4, rfl⟩ := (fromChunk_some_iff S H seg d hs stale hb c.data s).mp hf
     simp only [Soc.address, addressSize, h4, ne_eq, not_true_eq_false, if_false, createAddress]
     constructor
-    · intro h; exact ⟨h1, h2, pk, hpk, h4, by simpa using h⟩
-    · rintro ⟨_, _, pk', hpk', _, ha⟩
+    · intro h; exact ⟨h1, h2, h3, pk, hpk, h4, by simpa using h⟩
+    · rintro ⟨_, _, _, pk', hpk', _, ha⟩
       rw [hpk] at hpk'; cases hpk'
       simp [ha]
 
